@@ -97,7 +97,8 @@ def gen_case(rng):
                 "pre": rng.choice([None, None, "# existing\n\n- keep me\n", ""]),
                 "overwrite": rng.random() < 0.3,
                 "explicit": rng.choice([None, None, None] + list(tmpls)),
-                "vars": rng.choice([{}, {}, {"k": "v"}, {"date": "20230505", "k": "w"}, {"name": "given"}, {"name": "202401011230", "k": "20240102x"}]),
+                "vars": rng.choice([{}, {}, {"k": "v"}, {"date": "20230505", "k": "w"}, {"name": "given"}, {"name": "202401011230", "k": "20240102x"},
+                                    {"name": "R&D's <plan>", "k": "a\"b & c", "proj": "<p>"}]),
                 "via": "main" if rng.random() < 0.15 else "api",
                 "abs": rng.random() < 0.3,
             }
